@@ -123,6 +123,48 @@ Theorem C10_text_chain_id : forall sha256 t, text_env sha256 t ->
 Proof. exact text_chain_id. Qed.
 Print Assumptions C10_text_chain_id.
 
+(* ---- the observation point of the property, T.from_micheline_value(T.from_value(x)
+   .to_micheline_value(mode="optimized")), as a composition of the text-level models of
+   from_value (normalisation + validator), the optimized writer and the optimized reader.
+   [type_env]: sha_ok, all C09 side conditions on the table, the rows forge.py assumes. --------- *)
+Theorem C10_pinned_type_env : forall sha256, sha_ok sha256 -> type_env sha256 table43.
+Proof. exact type_env43. Qed.
+Print Assumptions C10_pinned_type_env.
+
+Theorem C10_observed_address : forall sha256 t, type_env sha256 t ->
+  forall c : contract, wf_address (fst c) -> address_type_admits (fst (fst c)) = true -> snd c <> [] ->
+  exists s, contract_text sha256 t c = Ok s /\ observe_address sha256 t s = Ok s.
+Proof. intros sha t [H1 [H2 H3]]. exact (observe_address_ok sha t H1 H2 H3). Qed.
+Print Assumptions C10_observed_address.
+
+Theorem C10_observed_txr_address : forall sha256 t, type_env sha256 t ->
+  forall c : contract, wf_address (fst c) -> fst (fst c) = Txr1 -> snd c <> [] ->
+  exists s, contract_text sha256 t c = Ok s /\ observe_txr sha256 t s = Ok s.
+Proof. intros sha t [H1 [H2 H3]]. exact (observe_txr_ok sha t H1 H2 H3). Qed.
+Print Assumptions C10_observed_txr_address.
+
+Theorem C10_observed_key_hash : forall sha256 t, type_env sha256 t ->
+  forall a, wf_address a -> is_implicit (fst a) = true ->
+  exists s, address_text sha256 t a = Ok s /\ observe_key_hash sha256 t s = Ok s.
+Proof. intros sha t [H1 [H2 H3]]. exact (observe_key_hash_ok sha t H1 H2 H3). Qed.
+Print Assumptions C10_observed_key_hash.
+
+Theorem C10_observed_key : forall sha256 t, type_env sha256 t ->
+  forall k, wf_public_key k -> exists s, public_key_text sha256 t k = Ok s /\ observe_key sha256 t s = Ok s.
+Proof. intros sha t [H1 [H2 H3]]. exact (observe_key_ok sha t H1 H2 H3). Qed.
+Print Assumptions C10_observed_key.
+
+Theorem C10_observed_signature : forall sha256 t, type_env sha256 t ->
+  forall sg s, wf_signature sg -> signature_text sha256 t sg = Ok s ->
+  exists s', observe_signature sha256 t s = Ok s' /\ forge_base58_text sha256 t s' = Ok (snd sg).
+Proof. intros sha t [H1 [H2 H3]]. exact (observe_signature_ok sha t H1 H2 H3). Qed.
+Print Assumptions C10_observed_signature.
+
+Theorem C10_observed_chain_id : forall sha256 t, type_env sha256 t ->
+  forall c s, chain_id_text sha256 t c = Ok s -> observe_chain_id sha256 t s = Ok s.
+Proof. intros sha t [H1 [H2 H3]]. exact (observe_chain_id_ok sha t H1 H2 H3). Qed.
+Print Assumptions C10_observed_chain_id.
+
 (* non-vacuity: the boundary digests *)
 Example C10_example_boundary :
   unforge_key_hash (forge_key_hash (Tz2, x00 :: repeat x11 19)) = Ok (Tz2, x00 :: repeat x11 19) /\
